@@ -404,7 +404,7 @@ func (t *Tokenizer) Tokenize(input []byte) ([]models.TokenWithSpan, error) {
 
 	// Validate input size to prevent DoS attacks
 	if len(input) > MaxInputSize {
-		err := errors.InputTooLargeError(int64(len(input)), MaxInputSize, models.Location{Line: 1, Column: 0})
+		err := errors.InputTooLargeError(int64(len(input)), MaxInputSize, models.Location{Line: 1, Column: 1})
 		metrics.RecordTokenization(time.Since(startTime), len(input), err)
 		return nil, err
 	}
@@ -537,7 +537,7 @@ func (t *Tokenizer) TokenizeContext(ctx context.Context, input []byte) ([]models
 
 	// Validate input size to prevent DoS attacks
 	if len(input) > MaxInputSize {
-		err := errors.InputTooLargeError(int64(len(input)), MaxInputSize, models.Location{Line: 1, Column: 0})
+		err := errors.InputTooLargeError(int64(len(input)), MaxInputSize, models.Location{Line: 1, Column: 1})
 		metrics.RecordTokenization(time.Since(startTime), len(input), err)
 		return nil, err
 	}
@@ -1007,11 +1007,7 @@ func (t *Tokenizer) readQuotedString(quote rune) (models.Token, error) {
 		if r == '\\' {
 			// Handle escape sequences
 			if err := t.handleEscapeSequence(&buf); err != nil {
-				return models.Token{}, errors.InvalidSyntaxError(
-					fmt.Sprintf("invalid escape sequence: %v", err),
-					models.Location{Line: t.pos.Line, Column: t.pos.Column},
-					string(t.input),
-				)
+				return models.Token{}, err
 			}
 			continue
 		}
@@ -1102,7 +1098,8 @@ func (t *Tokenizer) handleEscapeSequence(buf *bytes.Buffer) error {
 	t.pos.Column++
 
 	if t.pos.Index >= len(t.input) {
-		return errors.IncompleteStatementError(t.getCurrentPosition(), string(t.input))
+		// input ends inside a string literal: a lexical error (E1002)
+		return errors.UnterminatedStringError(t.getCurrentPosition(), string(t.input))
 	}
 
 	r, size := utf8.DecodeRune(t.input[t.pos.Index:])
@@ -1116,11 +1113,12 @@ func (t *Tokenizer) handleEscapeSequence(buf *bytes.Buffer) error {
 	case 't':
 		buf.WriteRune('\t')
 	default:
-		return errors.InvalidSyntaxError(
+		// a lexical error: reported with a tokenizer (E1xxx) code
+		return errors.NewError(
+			errors.ErrCodeUnexpectedChar,
 			fmt.Sprintf("invalid escape sequence '\\%c'", r),
 			t.getCurrentPosition(),
-			string(t.input),
-		)
+		).WithContext(string(t.input), 1).WithHint("Use one of \\\\ \\' \\\" \\n \\r \\t, or double the quote character")
 	}
 
 	t.pos.Index += size
